@@ -3,4 +3,404 @@ import SPProofs.Card.Sem
 
 namespace SPModel
 
+/-! ### Literals -/
+
+theorem litVal_neg (τ : Assign) (a : Int) (h : a ≠ 0) : litVal τ (-a) = !litVal τ a := by
+  unfold litVal
+  rcases Int.lt_trichotomy a 0 with h' | h' | h'
+  · have h1 : 0 < -a := by omega
+    have h2 : ¬ 0 < a := by omega
+    simp [h2]
+    omega
+  · exact absurd h' h
+  · simp [h']
+    omega
+
+theorem litVal_nat (τ : Assign) (o : Nat) (h : 0 < o) : litVal τ (o : Int) = τ o := by
+  unfold litVal
+  simp
+  omega
+
+theorem litVal_congr {n : Nat} {σ τ : Assign} {l : Int} (hl : LitOK n l) (h : Agree n σ τ) :
+    litVal σ l = litVal τ l := by
+  unfold litVal
+  have : σ l.natAbs = τ l.natAbs := h _ (by have := hl.1; omega) hl.2
+  rw [this]
+
+theorem LitOK.mono {n m : Nat} {l : Int} (h : LitOK n l) (hnm : n ≤ m) : LitOK m l :=
+  ⟨h.1, Nat.le_trans h.2 hnm⟩
+
+theorem LitOK.nat {n o : Nat} (h0 : 0 < o) (h : o ≤ n) : LitOK n (o : Int) :=
+  ⟨by omega, by simpa using h⟩
+
+theorem Agree.refl (n : Nat) (σ : Assign) : Agree n σ σ := fun _ _ _ => rfl
+
+theorem Agree.symm {n : Nat} {σ τ : Assign} (h : Agree n σ τ) : Agree n τ σ :=
+  fun v h1 h2 => (h v h1 h2).symm
+
+theorem Agree.trans {n : Nat} {σ τ ρ : Assign} (h : Agree n σ τ) (h' : Agree n τ ρ) : Agree n σ ρ :=
+  fun v h1 h2 => (h v h1 h2).trans (h' v h1 h2)
+
+theorem Agree.mono {n m : Nat} {σ τ : Assign} (h : Agree m σ τ) (hnm : n ≤ m) : Agree n σ τ :=
+  fun v h1 h2 => h v h1 (Nat.le_trans h2 hnm)
+
+theorem litCount_congr {n : Nat} {σ τ : Assign} {xs : List Int} (hx : ∀ x ∈ xs, LitOK n x)
+    (h : Agree n σ τ) : litCount σ xs = litCount τ xs := by
+  unfold litCount
+  congr 1
+  apply List.filter_congr
+  intro x hxm
+  exact litVal_congr (hx x hxm) h
+
+theorem clauseSat_congr {n : Nat} {σ τ : Assign} {c : Clause} (hx : ∀ x ∈ c, LitOK n x)
+    (h : Agree n σ τ) : clauseSat σ c = clauseSat τ c := by
+  unfold clauseSat
+  induction c with
+  | nil => rfl
+  | cons a c ih =>
+    simp only [List.any_cons]
+    rw [litVal_congr (hx a (by simp)) h, ih (fun x hx' => hx x (by simp [hx']))]
+
+theorem cnfSat_congr {n : Nat} {σ τ : Assign} {φ : Cnf} (hx : ∀ c ∈ φ, ∀ x ∈ c, LitOK n x)
+    (h : Agree n σ τ) : cnfSat σ φ = cnfSat τ φ := by
+  unfold cnfSat
+  induction φ with
+  | nil => rfl
+  | cons a c ih =>
+    simp only [List.all_cons]
+    rw [clauseSat_congr (hx a (by simp)) h, ih (fun x hx' => hx x (by simp [hx']))]
+
+theorem cnfSat_append (τ : Assign) (φ ψ : Cnf) :
+    cnfSat τ (φ ++ ψ) = (cnfSat τ φ && cnfSat τ ψ) := by
+  simp [cnfSat]
+
+/-! ### Items -/
+
+/-- The value a gate item assigns to its output. -/
+def Item.eval (τ : Assign) : Item → Bool
+  | .and2 _ a b   => litVal τ a && litVal τ b
+  | .xor2 _ a b   => litVal τ a != litVal τ b
+  | .maj3 _ a b c => (litVal τ a && litVal τ b) || (litVal τ a && litVal τ c) || (litVal τ b && litVal τ c)
+  | .xor3 _ a b c => (litVal τ a != litVal τ b) != litVal τ c
+  | .or2 _ a b    => litVal τ a || litVal τ b
+  | .or3 _ a b c  => litVal τ a || litVal τ b || litVal τ c
+  | .notg _ a     => !(litVal τ a)
+  | .const _ v    => v
+  | .unit _       => false
+  | .raw _        => false
+
+theorem Item.holds_of_out {τ : Assign} {it : Item} {o : Nat} (h : it.out = some o) :
+    it.holds τ = (τ o == it.eval τ) := by
+  cases it <;> simp [Item.out] at h <;> subst h <;> rfl
+
+theorem Item.eval_congr {n : Nat} {σ τ : Assign} {it : Item} (hi : ∀ l ∈ it.ins, LitOK n l)
+    (h : Agree n σ τ) : it.eval σ = it.eval τ := by
+  cases it <;> simp only [Item.ins, List.mem_cons, List.not_mem_nil, or_false, forall_eq_or_imp,
+    forall_eq] at hi <;> simp only [Item.eval]
+  all_goals first
+    | rfl
+    | (obtain ⟨h1, h2, h3⟩ := hi
+       rw [litVal_congr h1 h, litVal_congr h2 h, litVal_congr h3 h])
+    | (obtain ⟨h1, h2⟩ := hi
+       rw [litVal_congr h1 h, litVal_congr h2 h])
+    | rw [litVal_congr hi h]
+
+/-- Clause level = item level, for one item. -/
+theorem Item.sat_eq_holds (τ : Assign) (it : Item) (ho : ∀ o, it.out = some o → 0 < o)
+    (hi : ∀ l ∈ it.ins, l ≠ 0) : cnfSat τ it.clauses = it.holds τ := by
+  cases it with
+  | and2 o a b =>
+    have ho' := ho o rfl
+    have ha : a ≠ 0 := hi a (by simp [Item.ins])
+    have hb : b ≠ 0 := hi b (by simp [Item.ins])
+    simp only [Item.clauses, cnfSat, clauseSat, List.all_cons, List.all_nil, List.any_cons,
+      List.any_nil, litVal_neg _ _ ha, litVal_neg _ _ hb,
+      litVal_neg _ (o : Int) (by omega), litVal_nat _ _ ho', Item.holds]
+    cases τ o <;> cases litVal τ a <;> cases litVal τ b <;> rfl
+  | xor2 o a b =>
+    have ho' := ho o rfl
+    have ha : a ≠ 0 := hi a (by simp [Item.ins])
+    have hb : b ≠ 0 := hi b (by simp [Item.ins])
+    simp only [Item.clauses, cnfSat, clauseSat, List.all_cons, List.all_nil, List.any_cons,
+      List.any_nil, litVal_neg _ _ ha, litVal_neg _ _ hb,
+      litVal_neg _ (o : Int) (by omega), litVal_nat _ _ ho', Item.holds]
+    cases τ o <;> cases litVal τ a <;> cases litVal τ b <;> rfl
+  | maj3 o a b c =>
+    have ho' := ho o rfl
+    have ha : a ≠ 0 := hi a (by simp [Item.ins])
+    have hb : b ≠ 0 := hi b (by simp [Item.ins])
+    have hc : c ≠ 0 := hi c (by simp [Item.ins])
+    simp only [Item.clauses, cnfSat, clauseSat, List.all_cons, List.all_nil, List.any_cons,
+      List.any_nil, litVal_neg _ _ ha, litVal_neg _ _ hb, litVal_neg _ _ hc,
+      litVal_neg _ (o : Int) (by omega), litVal_nat _ _ ho', Item.holds]
+    cases τ o <;> cases litVal τ a <;> cases litVal τ b <;> cases litVal τ c <;> rfl
+  | xor3 o a b c =>
+    have ho' := ho o rfl
+    have ha : a ≠ 0 := hi a (by simp [Item.ins])
+    have hb : b ≠ 0 := hi b (by simp [Item.ins])
+    have hc : c ≠ 0 := hi c (by simp [Item.ins])
+    simp only [Item.clauses, cnfSat, clauseSat, List.all_cons, List.all_nil, List.any_cons,
+      List.any_nil, litVal_neg _ _ ha, litVal_neg _ _ hb, litVal_neg _ _ hc,
+      litVal_neg _ (o : Int) (by omega), litVal_nat _ _ ho', Item.holds]
+    cases τ o <;> cases litVal τ a <;> cases litVal τ b <;> cases litVal τ c <;> rfl
+  | or2 o a b =>
+    have ho' := ho o rfl
+    have ha : a ≠ 0 := hi a (by simp [Item.ins])
+    have hb : b ≠ 0 := hi b (by simp [Item.ins])
+    simp only [Item.clauses, cnfSat, clauseSat, List.all_cons, List.all_nil, List.any_cons,
+      List.any_nil, litVal_neg _ _ ha, litVal_neg _ _ hb,
+      litVal_neg _ (o : Int) (by omega), litVal_nat _ _ ho', Item.holds]
+    cases τ o <;> cases litVal τ a <;> cases litVal τ b <;> rfl
+  | or3 o a b c =>
+    have ho' := ho o rfl
+    have ha : a ≠ 0 := hi a (by simp [Item.ins])
+    have hb : b ≠ 0 := hi b (by simp [Item.ins])
+    have hc : c ≠ 0 := hi c (by simp [Item.ins])
+    simp only [Item.clauses, cnfSat, clauseSat, List.all_cons, List.all_nil, List.any_cons,
+      List.any_nil, litVal_neg _ _ ha, litVal_neg _ _ hb, litVal_neg _ _ hc,
+      litVal_neg _ (o : Int) (by omega), litVal_nat _ _ ho', Item.holds]
+    cases τ o <;> cases litVal τ a <;> cases litVal τ b <;> cases litVal τ c <;> rfl
+  | notg o a =>
+    have ho' := ho o rfl
+    have ha : a ≠ 0 := hi a (by simp [Item.ins])
+    simp only [Item.clauses, cnfSat, clauseSat, List.all_cons, List.all_nil, List.any_cons,
+      List.any_nil, litVal_neg _ _ ha,
+      litVal_neg _ (o : Int) (by omega), litVal_nat _ _ ho', Item.holds]
+    cases τ o <;> cases litVal τ a <;> rfl
+  | const o v =>
+    have ho' := ho o rfl
+    cases v <;>
+    simp only [Item.clauses, cnfSat, clauseSat, List.all_cons, List.all_nil, List.any_cons,
+      List.any_nil, litVal_neg _ (o : Int) (by omega), litVal_nat _ _ ho', Item.holds,
+      if_true, if_false, Bool.false_eq_true] <;>
+    cases τ o <;> rfl
+  | unit l =>
+    simp [Item.clauses, cnfSat, clauseSat, Item.holds]
+  | raw c =>
+    simp [Item.clauses, cnfSat, clauseSat, Item.holds]
+
+/-! ### Chains -/
+
+theorem Chain.le : ∀ {l : List Item} {n m : Nat}, Chain n l m → n ≤ m
+  | [], n, m, h => by simp [Chain] at h; omega
+  | it :: rest, n, m, h => by
+    simp only [Chain] at h
+    obtain ⟨_, h2⟩ := h
+    cases ho : it.out with
+    | none => rw [ho] at h2; exact Chain.le h2
+    | some o =>
+      rw [ho] at h2
+      have := Chain.le h2.2
+      omega
+
+theorem Chain.append : ∀ {l₁ l₂ : List Item} {n m k : Nat},
+    Chain n l₁ m → Chain m l₂ k → Chain n (l₁ ++ l₂) k
+  | [], l₂, n, m, k, h1, h2 => by
+    simp [Chain] at h1; subst h1; simpa using h2
+  | it :: rest, l₂, n, m, k, h1, h2 => by
+    simp only [Chain, List.cons_append] at h1 ⊢
+    refine ⟨h1.1, ?_⟩
+    cases ho : it.out with
+    | none =>
+      have h3 := h1.2; rw [ho] at h3
+      exact Chain.append h3 h2
+    | some o =>
+      have h3 := h1.2; rw [ho] at h3
+      exact ⟨h3.1, Chain.append h3.2 h2⟩
+
+theorem Chain.nil (n : Nat) : Chain n [] n := by simp [Chain]
+
+theorem Chain.single_gate {n : Nat} {it : Item} (ho : it.out = some (n + 1))
+    (hi : ∀ l ∈ it.ins, LitOK n l) : Chain n [it] (n + 1) := by
+  simp only [Chain]
+  refine ⟨hi, ?_⟩
+  rw [ho]
+  simp
+
+theorem Chain.single_assert {n : Nat} {it : Item} (ho : it.out = none)
+    (hi : ∀ l ∈ it.ins, LitOK n l) : Chain n [it] n := by
+  simp only [Chain]
+  refine ⟨hi, ?_⟩
+  rw [ho]
+  simp
+
+/-- Clause level = item level along a chain. -/
+theorem Chain.sat_iff (τ : Assign) : ∀ {l : List Item} {n m : Nat}, Chain n l m →
+    (cnfSat τ (l.map Item.clauses).flatten = true ↔ ∀ it ∈ l, it.holds τ = true)
+  | [], n, m, _ => by simp [cnfSat]
+  | it :: rest, n, m, h => by
+    simp only [Chain] at h
+    obtain ⟨h1, h2⟩ := h
+    have hit : cnfSat τ it.clauses = it.holds τ := by
+      apply Item.sat_eq_holds
+      · intro o ho
+        rw [ho] at h2
+        omega
+      · intro l hl
+        exact (h1 l hl).1
+    have hrest : cnfSat τ (rest.map Item.clauses).flatten = true ↔ ∀ it ∈ rest, it.holds τ = true := by
+      cases ho : it.out with
+      | none => rw [ho] at h2; exact Chain.sat_iff τ h2
+      | some o => rw [ho] at h2; exact Chain.sat_iff τ h2.2
+    simp only [List.map_cons, List.flatten_cons, cnfSat_append, Bool.and_eq_true, hit, hrest,
+      List.mem_cons, forall_eq_or_imp]
+
+/-- Along a chain, every assignment of the old variables has exactly one
+    extension that makes the gate items hold. -/
+theorem Chain.exists_unique : ∀ {l : List Item} {n m : Nat}, Chain n l m → ∀ σ : Assign,
+    ∃ τ : Assign, Agree n σ τ ∧
+      (∀ it ∈ l, it.out ≠ none → it.holds τ = true) ∧
+      ∀ τ' : Assign, Agree n σ τ' →
+        (∀ it ∈ l, it.out ≠ none → it.holds τ' = true) → Agree m τ τ'
+  | [], n, m, h, σ => by
+    simp [Chain] at h; subst h
+    exact ⟨σ, Agree.refl _ _, by simp, fun τ' h' _ => h'⟩
+  | it :: rest, n, m, h, σ => by
+    simp only [Chain] at h
+    obtain ⟨h1, h2⟩ := h
+    cases ho : it.out with
+    | none =>
+      rw [ho] at h2
+      obtain ⟨τ, ha, hh, hu⟩ := Chain.exists_unique h2 σ
+      refine ⟨τ, ha, ?_, ?_⟩
+      · intro it' hm hne
+        rcases List.mem_cons.1 hm with rfl | hm
+        · exact absurd ho hne
+        · exact hh it' hm hne
+      · intro τ' ha' hh'
+        exact hu τ' ha' (fun it' hm hne => hh' it' (List.mem_cons_of_mem _ hm) hne)
+    | some o =>
+      rw [ho] at h2
+      obtain ⟨rfl, h2⟩ := h2
+      let σ' : Assign := fun v => if v = n + 1 then it.eval σ else σ v
+      have hσ : Agree n σ σ' := by
+        intro v _ hv
+        have : v ≠ n + 1 := by omega
+        simp [σ', this]
+      obtain ⟨τ, ha, hh, hu⟩ := Chain.exists_unique h2 σ'
+      have haσ : Agree n σ τ := hσ.trans (ha.mono (Nat.le_succ n))
+      refine ⟨τ, haσ, ?_, ?_⟩
+      · intro it' hm hne
+        rcases List.mem_cons.1 hm with rfl | hm
+        · rw [Item.holds_of_out ho, ← ha (n + 1) (by omega) (Nat.le_refl _),
+            ← Item.eval_congr h1 haσ]
+          simp [σ']
+        · exact hh it' hm hne
+      · intro τ' ha' hh'
+        apply hu τ'
+        · intro v hv1 hv2
+          by_cases hv : v = n + 1
+          · subst hv
+            have := hh' it (by simp) (by simp [ho])
+            rw [Item.holds_of_out ho, ← Item.eval_congr h1 ha'] at this
+            simp only [σ', if_true]
+            exact (eq_of_beq this).symm
+          · simp only [σ', hv, if_false]
+            exact ha' v hv1 (by omega)
+        · exact fun it' hm hne => hh' it' (List.mem_cons_of_mem _ hm) hne
+
+namespace Builder
+
+/-! ### Builder relations -/
+
+/-- `b'` extends `b` by gate items only. -/
+def GExt (b b' : Builder) : Prop :=
+  ∃ new : List Item, b'.items = new ++ b.items ∧ Chain b.nvars new.reverse b'.nvars ∧
+    ∀ it ∈ new, it.out ≠ none
+
+theorem GExt.ext {b b' : Builder} (h : GExt b b') : Ext b b' := by
+  obtain ⟨new, h1, h2, _⟩ := h
+  exact ⟨new, h1, h2⟩
+
+theorem Ext.refl (b : Builder) : Ext b b := ⟨[], by simp, Chain.nil _⟩
+
+theorem GExt.refl (b : Builder) : GExt b b := ⟨[], by simp, Chain.nil _, by simp⟩
+
+theorem Ext.trans {b₁ b₂ b₃ : Builder} (h : Ext b₁ b₂) (h' : Ext b₂ b₃) : Ext b₁ b₃ := by
+  obtain ⟨n1, e1, c1⟩ := h
+  obtain ⟨n2, e2, c2⟩ := h'
+  refine ⟨n2 ++ n1, by rw [e2, e1, List.append_assoc], ?_⟩
+  rw [List.reverse_append]
+  exact c1.append c2
+
+theorem GExt.trans {b₁ b₂ b₃ : Builder} (h : GExt b₁ b₂) (h' : GExt b₂ b₃) : GExt b₁ b₃ := by
+  obtain ⟨n1, e1, c1, g1⟩ := h
+  obtain ⟨n2, e2, c2, g2⟩ := h'
+  refine ⟨n2 ++ n1, by rw [e2, e1, List.append_assoc], ?_, ?_⟩
+  · rw [List.reverse_append]
+    exact c1.append c2
+  · intro it hm
+    rcases List.mem_append.1 hm with hm | hm
+    · exact g2 it hm
+    · exact g1 it hm
+
+theorem Ext.le {b b' : Builder} (h : Ext b b') : b.nvars ≤ b'.nvars := by
+  obtain ⟨_, _, c⟩ := h
+  exact c.le
+
+theorem GExt.le {b b' : Builder} (h : GExt b b') : b.nvars ≤ b'.nvars := h.ext.le
+
+theorem Ext.holds {b b' : Builder} (h : Ext b b') {τ : Assign} (hτ : Holds τ b') : Holds τ b := by
+  obtain ⟨new, e, _⟩ := h
+  intro it hm
+  exact hτ it (by rw [e]; exact List.mem_append_right _ hm)
+
+theorem GExt.holds {b b' : Builder} (h : GExt b b') {τ : Assign} (hτ : Holds τ b') : Holds τ b :=
+  h.ext.holds hτ
+
+/-- One gate item defining the next fresh variable. -/
+theorem GExt.gate (b : Builder) (it : Item) (ho : it.out = some (b.nvars + 1))
+    (hi : ∀ l ∈ it.ins, LitOK b.nvars l) :
+    GExt b { nvars := b.nvars + 1, items := it :: b.items } :=
+  ⟨[it], rfl, Chain.single_gate ho hi, by simp [ho]⟩
+
+/-- One assertion item. -/
+theorem Ext.assert (b : Builder) (it : Item) (ho : it.out = none)
+    (hi : ∀ l ∈ it.ins, LitOK b.nvars l) : Ext b (b.emit it) :=
+  ⟨[it], rfl, Chain.single_assert ho hi⟩
+
+theorem Holds.cons {τ : Assign} {n : Nat} {it : Item} {its : List Item}
+    (h : Holds τ { nvars := n, items := it :: its }) :
+    it.holds τ = true ∧ ∀ m, Holds τ { nvars := m, items := its } :=
+  ⟨h it (by simp), fun _ it' hm => h it' (by simp [hm])⟩
+
+theorem newItems_eq {b b' : Builder} {new : List Item} (h : b'.items = new ++ b.items) :
+    newItems b b' = new := by
+  simp [newItems, h]
+
+/-- Over a fresh builder, a gate-only extension has a satisfying extension of
+    any assignment of the old variables. -/
+theorem GExt.exists_holds {n : Nat} {b : Builder} (h : GExt (fromFresh n) b) (σ : Assign) :
+    ∃ τ, Agree n σ τ ∧ Holds τ b := by
+  obtain ⟨new, e, c, g⟩ := h
+  obtain ⟨τ, ha, hh, _⟩ := c.exists_unique σ
+  refine ⟨τ, ha, ?_⟩
+  intro it hm
+  rw [e] at hm
+  simp only [fromFresh, List.append_nil] at hm
+  exact hh it (List.mem_reverse.2 hm) (g it hm)
+
+/-- Over a fresh builder, any two assignments making all items hold and
+    agreeing on the old variables agree on all variables. -/
+theorem Ext.unique {n : Nat} {b : Builder} (h : Ext (fromFresh n) b) {τ₁ τ₂ : Assign}
+    (h₁ : Holds τ₁ b) (h₂ : Holds τ₂ b) (ha : Agree n τ₁ τ₂) : Agree b.nvars τ₁ τ₂ := by
+  obtain ⟨new, e, c⟩ := h
+  obtain ⟨τ, ha', _, hu⟩ := c.exists_unique τ₁
+  simp only [fromFresh, List.append_nil] at e
+  have hm : ∀ {ρ : Assign}, Holds ρ b → ∀ it ∈ new.reverse, it.out ≠ none → it.holds ρ = true :=
+    fun hρ it hm _ => hρ it (by rw [e]; exact List.mem_reverse.1 hm)
+  have a1 := hu τ₁ (Agree.refl _ _) (hm h₁)
+  have a2 := hu τ₂ ha (hm h₂)
+  exact a1.symm.trans a2
+
+theorem vals_sat_iff {n : Nat} {b : Builder} (h : Ext (fromFresh n) b) (τ : Assign) :
+    cnfSat τ b.vals = true ↔ b.Holds τ := by
+  obtain ⟨new, e, c⟩ := h
+  simp only [fromFresh, List.append_nil] at e c
+  unfold vals Holds
+  rw [e, c.sat_iff τ]
+  simp
+
+end Builder
+
 end SPModel
